@@ -733,5 +733,6 @@ def run(tier, seed, replay=None):
         "~nosuchuser, ok-then-~nosuchuser, symlink loop, name too long, two `set log`) in claude mode; a cross of these for the five other "
         "mode spellings; a config warning variant; injected failure of the k-th operation at each of the 7 sites with each exception "
         "class; random awkward command texts under log-full; random JSON entries; strace per line size; concurrent appenders. "
-        "distinct = distinct scenario descriptors; non-trivial = some sink is faulty or some operation is made to fail")
+        "distinct = distinct scenario descriptors; non-trivial = some sink is faulty or some operation is made to fail.  NB the HOME-unset scenarios (24 in quick) make the hook fall back to the password database, i.e. they append a few records to the "
+        "approvals log below the real home of the uid running the check; everything else stays in the scratch directory")
     return out
